@@ -236,7 +236,7 @@ def p11ObjectToPublicKeyP (path : String) (slot handle : Nat) : Prog (Option Str
       | .bytes [] => pure none
       | .bytes point =>
         if point.length < 2 ∨ 258 ≤ point.length then errP .value else
-        let point := if point.take 3 = [4, UInt8.ofNat (point.length - 2), 4] then point.drop 2 else point
+        let point := ecUnwrap point
         let params ← attrBytesP (← attr1P (← askOkP (.getAttr path slot handle ["EC_PARAMS"])))
         let want ← if params = ecOidP256 then pure 256 else if params = ecOidP384 then pure 384
                    else errP .runtime
